@@ -9,6 +9,7 @@ import random
 
 from ..absgrammar import (LEAVES_SMALL, Gen, all_texts, alt, call, enum_exprs, grammar, named, opt, pat, rule, seq, star, subexps,
                           tok, to_ebnf)
+from .. import tlc
 from ..common import Check
 from ..impl import run_both_case
 from ..pegcheck import compare, conformance
@@ -161,9 +162,75 @@ def hashseed_starts(ck):
                               'spec': 'C02 (same outcome in both back-ends, whatever the hash seed)'}, key='hashseed' + start)
 
 
+MODELTIME_PROBE = r'''
+import json, sys, tatsu
+from tatsu.semantics import ModelBuilderSemantics
+GS = {
+ 'pair': "@@grammar :: M\nstart::Pair = l:item ',' r:item $ ;\nitem::Item = v:/\\w+/ ;\n",
+ 'list': "@@grammar :: M\nstart = {item}+ $ ;\nitem::Item::Base = v:/\\w/ ;\n",
+ 'ast':  "@@grammar :: M\nstart::Top = item item $ ;\nitem::Item = /\\w/ ;\n",
+}
+def proj(x, d=0):
+    from tatsu.objectmodel import Node
+    if isinstance(x, Node):
+        return {'__node__': type(x).__name__, **{k: proj(v, d + 1) for k, v in vars(x).items() if not k.startswith('_') and k not in ('parseinfo', 'ctx', 'comments')}}
+    if isinstance(x, dict):
+        return {k: proj(v, d + 1) for k, v in x.items()}
+    if isinstance(x, (list, tuple)):
+        return [proj(v, d + 1) for v in x]
+    return x if isinstance(x, (str, int, float, bool, type(None))) else type(x).__name__
+out = []
+for gname, g in GS.items():
+    model = tatsu.compile(g)
+    ns = {}
+    exec(compile(tatsu.to_python_sourcecode(g, name='M'), '<gen>', 'exec'), ns)
+    for text in ('a,b', 'a b', 'a', 'ab', ''):
+        for sname, mk in (('asmodel=True', lambda: {'asmodel': True}), ('semantics=ModelBuilderSemantics()', lambda: {'semantics': ModelBuilderSemantics()}),
+                          ('no settings', lambda: {})):
+            row = []
+            for p in (model, ns['MParser']()):
+                try:
+                    row.append({'k': 'ok', 'v': proj(p.parse(text, start='start', **mk()))})
+                except tatsu.exceptions.FailedParse as e:
+                    row.append({'k': 'fail'})
+                except Exception as e:
+                    row.append({'k': 'exc', 'cls': type(e).__name__, 'msg': str(e)[:120]})
+            out.append({'g': gname, 'grammar': g, 'text': text, 'settings': sname, 'model': row[0], 'generated': row[1]})
+print(json.dumps(out))
+'''
+
+
+def model_building_at_parse_time(ck):
+    """The same parse-time arguments that ask for an object model (asmodel=True, or a model-builder semantics object) given to the grammar
+    model and to the generated parser of the same grammar, in a fresh interpreter: equal outcomes, equal trees of node classes."""
+    import json
+    import subprocess
+    import sys
+    p = subprocess.run([sys.executable, '-c', MODELTIME_PROBE], env=dict(os.environ), capture_output=True, text=True, timeout=600)
+    try:
+        rows = json.loads(p.stdout.strip().splitlines()[-1])
+    except Exception:  # noqa: BLE001
+        ck.violation({'kind': 'parse', 'inputs': {'probe': 'model building at parse time'}, 'expected': 'the probe runs', 'observed': (p.stdout + p.stderr)[-600:]},
+                     key='modeltimeprobe')
+        return
+    nodes = 0
+    for r in rows:
+        ck.count(evaluations=2, traces=2, nontrivial=1 if '__node__' in json.dumps(r['model']) else 0)
+        nodes += '__node__' in json.dumps(r['model'])
+        if r['model'] != r['generated']:
+            ck.violation({'kind': 'parse', 'inputs': {'grammar': r['grammar'], 'text': r['text'], 'settings': r['settings']},
+                          'expected': {'model': r['model']}, 'observed': {'generated': r['generated']},
+                          'why': 'generated parser != model under the same parse-time arguments (object-model building requested at parse time)',
+                          'spec': 'C02 (same outcome in both back-ends under the same parse-time settings)'}, key='modeltime' + r['g'] + r['settings'])
+    ck.notes['model_building_at_parse_time'] = {'points': len(rows), 'with_nodes': nodes}
+    if nodes < 6:
+        raise tlc.MachineryError('model building at parse time: the model built no nodes (vacuous)')
+
+
 def run(tier):
     ck = Check('C02', tier)
     hashseed_starts(ck)
+    model_building_at_parse_time(ck)
     gs = universe(tier, ck.seed)
     texts = all_texts(['a', 'b', ' '], 3) + [list(t) for t in ['abab', 'a b a', 'aab ', 'A b', 'aB', 'a\tb', 'ab b', 'a\t\tb', 'ab\t a', 'a\t']]
     cut_texts = all_texts(['a', 'b', 'c'], 4) + [list('qabc'), list('qaa'), list('qac')]
